@@ -561,16 +561,77 @@ Lemma walk_nil fuel f nl cur follow :
   walk fuel f nl cur [] follow = WDir cur \/ walk fuel f nl cur [] follow = WErr.
 Proof. destruct fuel; simpl; auto. Qed.
 
+(* the last element is followed only when it is a link: an Lstat that did not see a link sees what
+   the following system call sees *)
+Lemma walk_follow_agrees f : forall fuel nl cur rem,
+  (forall q d a cs, walk fuel f nl cur rem false <> WSym q d a cs) ->
+  walk fuel f nl cur rem true = walk fuel f nl cur rem false.
+Proof.
+  induction fuel as [|fuel IH]; intros nl cur rem H; [reflexivity|].
+  destruct rem as [|[|c] r]; simpl in *; [reflexivity | now apply IH |].
+  destruct (lookup f (cur ++ [c])) as [[|i|d a cs]|]; try reflexivity.
+  - now apply IH.
+  - destruct r as [|c2 r'].
+    + exfalso. apply (H (cur ++ [c]) d a cs). reflexivity.
+    + destruct nl; [reflexivity | now apply IH].
+Qed.
+
+Definition nosym (f : fsys) (fp : list name) : Prop := forall q d a cs, awalk f fp false <> WSym q d a cs.
+
+Lemma nosym_of_lookup f fp :
+  lexreal f [] fp = true -> (forall d a cs, lookup f fp <> Some (NSym d a cs)) -> nosym f fp.
+Proof.
+  intros HL Hns q d a cs E.
+  pose proof (walk_lexical f fp FUEL NLINK [] HL) as Wl. fold (awalk f fp false) in Wl.
+  pose proof (walk_lookup f FUEL NLINK [] (Nms fp) false) as Wk. fold (awalk f fp false) in Wk.
+  rewrite E in Wl, Wk. simpl in Wl. subst q. destruct Wk as [L _]. exact (Hns d a cs L).
+Qed.
+
+(* a directory result of a lexical walk of a non-empty path is an entry of the tree *)
+Lemma walk_dir_is_entry f : forall ns cur fu n0,
+  lexreal f cur ns = true -> ns <> [] -> lookup f (cur ++ ns) <> Some NDir ->
+  walk fu f n0 cur (Nms ns) false <> WDir (cur ++ ns).
+Proof.
+  induction ns as [|c r IHr]; intros cur fu n0 HL0 Hn0 Hd; [contradiction|].
+  destruct fu as [|fu]; [discriminate|]. simpl. simpl in HL0.
+  destruct r as [|c2 r'].
+  - destruct (lookup f (cur ++ [c])) as [[|i0|d0 a0 cs0]|] eqn:L0; try discriminate. now elim Hd.
+  - destruct (lookup f (cur ++ [c])) as [[|i0|d0 a0 cs0]|] eqn:L0; try discriminate.
+    specialize (IHr (cur ++ [c]) fu n0 HL0). rewrite <- app_assoc in IHr. apply IHr; [discriminate | exact Hd].
+Qed.
+
+(* what an Lstat at a path whose parents are real tells about the tree *)
+Lemma klstat_fwd f p :
+  lexreal f [] p = true -> p <> [] ->
+  match klstat f p with
+  | LDir q => q = p /\ lookup f p = Some NDir
+  | LFile => exists i, lookup f p = Some (NFile i)
+  | LSym => exists d a cs, lookup f p = Some (NSym d a cs)
+  | _ => True
+  end.
+Proof.
+  intros HL Hne. unfold klstat.
+  pose proof (walk_lexical f p FUEL NLINK [] HL) as Wl. fold (awalk f p false) in Wl.
+  pose proof (walk_lookup f FUEL NLINK [] (Nms p) false) as Wk. fold (awalk f p false) in Wk.
+  destruct (awalk f p false) eqn:E; simpl in *; try exact Logic.I.
+  - subst p0. split; [reflexivity|].
+    destruct (lookup f p) as [[|i|d a cs]|] eqn:L; [reflexivity | | |]; exfalso;
+      apply (walk_dir_is_entry f p [] FUEL NLINK HL Hne); simpl; try (rewrite L; discriminate); exact E.
+  - destruct Wk as [L _]. subst p0. exists i. exact L.
+  - destruct Wk as [L _]. subst p0. exists d, a, cs. exact L.
+Qed.
+
 Lemma write_at_lex wd fp c mo f f' :
   Inv wd f -> inside wd fp = true -> lexreal f [] fp = true ->
-  (forall d a cs, lookup f fp <> Some (NSym d a cs)) ->
+  nosym f fp ->
   write_at f (Nms fp) c mo = Some f' ->
   Keeps wd f f' /\ only_at f f' fp /\ exists i, lookup f' fp = Some (NFile i).
 Proof.
   intros I Hin HL Hns H. unfold write_at in H.
-  pose proof (walk_lex f fp FUEL NLINK [] true HL (fun _ => Hns)) as Wl.
-  pose proof (walk_lookup f FUEL NLINK [] (Nms fp) true) as Wk.
-  destruct (walk FUEL f NLINK [] (Nms fp) true); try discriminate; injection H as <-;
+  rewrite (walk_follow_agrees f FUEL NLINK [] (Nms fp) Hns) in H.
+  pose proof (walk_lexical f fp FUEL NLINK [] HL) as Wl.
+  pose proof (walk_lookup f FUEL NLINK [] (Nms fp) false) as Wk.
+  destruct (walk FUEL f NLINK [] (Nms fp) false); try discriminate; injection H as <-;
     simpl in Wl; subst p; destruct Wk as [L Hne].
   - split; [eapply keeps_setcont; eauto|]. split; [intros q _; reflexivity|]. exists i. exact L.
   - split; [apply keeps_newfile; [exact I|]; eapply inside_sinside; eauto; rewrite L; discriminate|].
@@ -660,18 +721,23 @@ Qed.
 Lemma unlink_if_lex wd fp f f' :
   Inv wd f -> inside wd fp = true -> lexreal f [] fp = true ->
   unlink_if_symlink f fp = Some f' ->
-  Keeps wd f f' /\ only_at f f' fp /\ (forall d a cs, lookup f' fp <> Some (NSym d a cs)).
+  Keeps wd f f' /\ only_at f f' fp /\ nosym f' fp.
 Proof.
   intros I Hin HL H. unfold unlink_if_symlink in H.
-  destruct (lookup f fp) as [[|i|d a cs]|] eqn:L;
-    try (injection H as <-; split; [now apply Keeps_refl|]; split; [apply only_at_refl|];
-         intros d0 a0 cs0; rewrite L; discriminate).
+  assert (Hkeep : klstat f fp <> LSym -> Some f = Some f' -> Keeps wd f f' /\ only_at f f' fp /\ nosym f' fp).
+  { intros Hk [= <-]. split; [now apply Keeps_refl|]. split; [apply only_at_refl|].
+    intros q d a cs E. apply Hk. unfold klstat. rewrite E. reflexivity. }
+  destruct (klstat f fp) eqn:EK; try (apply Hkeep; [discriminate | exact H]).
   destruct fp as [|x fp']; [rewrite remove_at_nil in H; discriminate|].
+  pose proof (klstat_fwd f (x :: fp') HL ltac:(discriminate)) as Kf. rewrite EK in Kf.
+  destruct Kf as (d & a & cs & L).
   assert (Hs : sinside wd (x :: fp')).
   { eapply inside_sinside; eauto; [discriminate | rewrite L; discriminate]. }
   destruct (remove_at_lex wd _ f f' I Hs HL H) as (-> & K & _).
   split; [exact K|]. split; [apply only_at_del|].
-  intros d0 a0 cs0. rewrite lookup_delent, path_eqb_refl. discriminate.
+  apply nosym_of_lookup.
+  - rewrite (lexreal_only_at f _ _ (only_at_del f (x :: fp'))). exact HL.
+  - intros d0 a0 cs0. rewrite lookup_delent, path_eqb_refl. discriminate.
 Qed.
 
 Lemma do_symlink_lex wd fp d a cs f f' :
@@ -761,11 +827,13 @@ Proof.
   - injection H as <-. rewrite app_nil_r. split; [now apply Keeps_refl|]. split; [exact HR | apply only_below_refl].
   - cbn [mkdir_real] in H.
     assert (Hin' : inside wd (cur ++ [c]) = true) by now apply inside_app.
-    destruct (lookup f (cur ++ [c])) as [[|i|d a cs]|] eqn:L; try discriminate.
-    + destruct (IH (cur ++ [c]) f f' I Hin' (RealD_snoc _ _ _ HR L) H) as (K & R & O).
+    assert (HL : lexreal f [] (cur ++ [c]) = true) by (apply RealD_lexreal; [exact HR | reflexivity]).
+    pose proof (klstat_fwd f (cur ++ [c]) HL (snoc_not_nil cur c)) as Kf.
+    destruct (klstat f (cur ++ [c])) as [q| | | |] eqn:EK; try discriminate.
+    + destruct Kf as [_ L].
+      destruct (IH (cur ++ [c]) f f' I Hin' (RealD_snoc _ _ _ HR L) H) as (K & R & O).
       rewrite <- app_assoc in R. split; [exact K|]. split; [exact R | exact (only_below_step _ _ _ c O)].
-    + assert (HL : lexreal f [] (cur ++ [c]) = true) by (apply RealD_lexreal; [exact HR | reflexivity]).
-      pose proof (walk_lexical f (cur ++ [c]) FUEL NLINK [] HL) as Wl. fold (awalk f (cur ++ [c]) false) in Wl.
+    + pose proof (walk_lexical f (cur ++ [c]) FUEL NLINK [] HL) as Wl. fold (awalk f (cur ++ [c]) false) in Wl.
       destruct (awalk f (cur ++ [c]) false); try discriminate. simpl in Wl. subst p.
       assert (Hs : sinside wd (cur ++ [c])) by (apply inside_sinside_app; [exact Hin | discriminate]).
       pose proof (keeps_newdir wd f (cur ++ [c]) mo I Hs) as K1.
@@ -812,14 +880,6 @@ Proof.
   apply RealD_lexreal; [exact HR | now apply parents_ok_lexreal].
 Qed.
 
-Lemma unlink_if_real f dp f0 : RealD f [] dp -> unlink_if_symlink f dp = Some f0 -> f0 = f.
-Proof.
-  intros HR H. unfold unlink_if_symlink in H. destruct dp as [|x d'].
-  - destruct (lookup f []) as [[|i|d a cs]|]; try (now injection H as <-).
-    rewrite remove_at_nil in H. discriminate.
-  - pose proof (HR (x :: d') []) as L. simpl in L. rewrite L in H; [now injection H as <- | now rewrite app_nil_r | discriminate].
-Qed.
-
 Lemma RealD_same f f' dp : (forall q, lookup f' q = lookup f q) -> RealD f [] dp -> RealD f' [] dp.
 Proof. intros S H q r E Hq. rewrite S. apply (H q r E Hq). Qed.
 
@@ -839,7 +899,7 @@ Lemma mkdir_real_mono mo : forall qs cur f f',
 Proof.
   induction qs as [|c r IH]; intros cur f f' H q v L.
   - injection H as <-. exact L.
-  - cbn [mkdir_real] in H. destruct (lookup f (cur ++ [c])) as [[|i|d a cs]|] eqn:E; try discriminate.
+  - cbn [mkdir_real] in H. destruct (klstat f (cur ++ [c])) as [q0| | | |] eqn:E; try discriminate.
     + eapply IH; eauto.
     + pose proof (walk_lookup f FUEL NLINK [] (Nms (cur ++ [c])) false) as Wk. fold (awalk f (cur ++ [c]) false) in Wk.
       destruct (awalk f (cur ++ [c]) false); try discriminate. destruct Wk as [Ln _].
@@ -880,8 +940,12 @@ Proof.
     assert (O01 : only_at f f1 fp) by (eapply only_at_trans; eauto).
     assert (S01 : Step f f1 fp).
     { right. split; [exact O01|]. split; [rewrite L1; discriminate|].
-      intros L _. exfalso. unfold unlink_if_symlink in U. rewrite L in U. injection U as <-.
-      rewrite (write_at_dir_none f fp c mo HL L) in Wr. discriminate. }
+      intros L _. exfalso. unfold unlink_if_symlink in U.
+      assert (Hfpne : fp <> []) by (unfold fp, rel; destruct dp; discriminate).
+      pose proof (klstat_fwd f fp HL Hfpne) as Kf.
+      destruct (klstat f fp);
+        try (injection U as <-; rewrite (write_at_dir_none f fp c mo HL L) in Wr; discriminate).
+      destruct Kf as (d0 & a0 & cs0 & L2). rewrite L in L2. discriminate. }
     destruct pres.
     + assert (HL1 : lexreal f1 [] fp = true) by (rewrite (lexreal_only_at _ _ _ O1); exact HL0).
       assert (N1 : forall d a cs, lookup f1 fp <> Some (NSym d a cs)) by (intros; rewrite L1; discriminate).
@@ -922,18 +986,20 @@ Lemma touch_keeps wd fp t f :
   Keeps wd f (touch cfg_fixed f fp t) /\ (forall q, lookup (touch cfg_fixed f fp t) q = lookup f q).
 Proof.
   intros I Hin HL. unfold touch. cbn [fixT cfg_fixed].
-  assert (Hch : (forall d a cs, lookup f fp <> Some (NSym d a cs)) ->
+  assert (Hch : nosym f fp ->
                 Keeps wd f (chtimes_at f fp t) /\ (forall q, lookup (chtimes_at f fp t) q = lookup f q)).
   { intro Hns. unfold chtimes_at. destruct t as [|tp]; [split; [now apply Keeps_refl | reflexivity]|].
-    unfold awalk.
-    pose proof (walk_lex f fp FUEL NLINK [] true HL (fun _ => Hns)) as Wl.
-    pose proof (walk_lookup f FUEL NLINK [] (Nms fp) true) as Wk.
-    destruct (walk FUEL f NLINK [] (Nms fp) true); try (split; [now apply Keeps_refl | reflexivity]);
+    unfold awalk. rewrite (walk_follow_agrees f FUEL NLINK [] (Nms fp) Hns).
+    pose proof (walk_lexical f fp FUEL NLINK [] HL) as Wl.
+    pose proof (walk_lookup f FUEL NLINK [] (Nms fp) false) as Wk.
+    destruct (walk FUEL f NLINK [] (Nms fp) false); try (split; [now apply Keeps_refl | reflexivity]);
       simpl in Wl; subst p.
     - split; [now apply keeps_setdstamp | reflexivity].
     - destruct Wk as [L _]. split; [eapply keeps_setfstamp; eauto | reflexivity]. }
-  destruct (lookup f fp) as [[|i|d a cs]|] eqn:L; try (apply Hch; intros; discriminate).
-  split; [now apply Keeps_refl | reflexivity].
+  assert (Hk : klstat f fp <> LSym -> nosym f fp).
+  { intros Hk q d a cs E. apply Hk. unfold klstat. rewrite E. reflexivity. }
+  destruct (klstat f fp) eqn:EK; try (split; [now apply Keeps_refl | reflexivity]);
+    apply Hch, Hk; discriminate.
 Qed.
 
 (* a recorded directory: every proper ancestor is a real directory and still has its child on
@@ -1000,6 +1066,14 @@ Proof.
 Qed.
 
 (* restoreDirModes: each chmod hits a recorded directory that is still a real directory *)
+Lemma Recd_lexreal f p : Recd f p -> lexreal f [] p = true.
+Proof.
+  intro H. destruct p as [|x l] using rev_ind; [reflexivity|].
+  apply RealD_lexreal; [|reflexivity].
+  intros q r0 E Hq. simpl. destruct (r0 ++ [x]) as [|c r] eqn:Er; [destruct r0; discriminate|].
+  apply (H q c r); [|exact Hq]. rewrite E, <- app_assoc, Er. reflexivity.
+Qed.
+
 Lemma restore_dirs_keeps wd pres : forall dirs f f' seen,
   Inv wd f -> Recds f dirs -> Forall (fun d => inside wd (fst d) = true) dirs ->
   restore_dirs pres f dirs seen = Some f' -> Keeps wd f f'.
@@ -1009,10 +1083,14 @@ Proof.
   - cbn [restore_dirs] in H. inversion HD as [|? ? Hp Hr]; subst. inversion Hin as [|? ? Ip Ir]; subst.
     simpl in Hp, Ip.
     destruct (existsb (path_eqb p) seen); [exact (IH f f' seen I Hr Ir H)|].
-    destruct (lookup f p) as [[|i|d a cs]|] eqn:L; try discriminate; try exact (IH f f' (p :: seen) I Hr Ir H).
+    assert (HRp : forall q, klstat f p = LDir q -> RealD f [] p).
+    { intros q EK. destruct p as [|x p']; [intros q0 r0 E Hq0; destruct q0; [contradiction | discriminate]|].
+      pose proof (klstat_fwd f (x :: p') (Recd_lexreal _ _ Hp) ltac:(discriminate)) as Kf.
+      rewrite EK in Kf. destruct Kf as [_ L]. exact (Recd_RealD _ _ Hp L). }
+    destruct (klstat f p) as [q| | | |] eqn:EK; try discriminate; try exact (IH f f' (p :: seen) I Hr Ir H).
     match type of H with (if ?c then _ else _) = _ => destruct c end; [exact (IH f f' (p :: seen) I Hr Ir H)|].
     match type of H with match chmod_at f p ?w with _ => _ end = _ => destruct (chmod_at f p w) as [f1|] eqn:Cm end; [|discriminate].
-    destruct (chmod_at_real wd p _ f f1 I Ip (Recd_RealD _ _ Hp L) Cm) as [K1 S1].
+    destruct (chmod_at_real wd p _ f f1 I Ip (HRp q eq_refl) Cm) as [K1 S1].
     eapply Keeps_trans; [exact K1|]. apply (IH f1 f' (p :: seen) (proj1 K1)); [|exact Ir | exact H].
     unfold Recds in *. rewrite Forall_forall in *. intros d Hd. apply (Recd_same f); auto.
 Qed.
